@@ -23,6 +23,11 @@ ARGS = [(), ("a",), ("",), (" ",), ("a", "b"), ("a", 1), (1,), (0,), (-1,), (2, 
         (True,), ("a", 0, 3), ("|", 1)]
 
 
+# the names of dir(str) a class defines on purpose (coq/Mixin.v: redefinable_by_all / redefinable)
+ALLOWED_ALL = {"__doc__", "__init__", "__str__", "__module__"}
+ALLOWED = {"Wikicode": {"index", "replace"}, "ExternalLink": {"title"}, "Heading": {"title"}, "Wikilink": {"title"}, "Template": {"__getitem__"}}
+
+
 def outcome(fn):
     try:
         r = fn()
@@ -53,7 +58,16 @@ def build_objects(rng):
     seen = {}
     for o in objs:
         seen.setdefault((type(o).__name__, str(o)), o)
-    return list(seen.values())
+    out = list(seen.values())
+    # objects that edits have emptied: they still own nodes, but render as the empty string
+    e1 = mwparserfromhell.parse("abc")
+    e1.nodes[0].value = ""
+    e2 = mwparserfromhell.parse("{{foo|bar=   }}")
+    val = e2.nodes[0].params[0].value
+    for t in val.filter_text():
+        t.value = t.value.strip()
+    e3 = mwparserfromhell.parse("<b></b>").nodes[0].contents
+    return [e1, e1.nodes[0], val, e2.nodes[0].params[0], e3] + out
 
 
 def real_lookup(x, name, mixin):
@@ -87,6 +101,7 @@ def real_lookup(x, name, mixin):
 
 
 def run(tier, seed):
+    import mwparserfromhell
     from mwparserfromhell.string_mixin import StringMixIn
     c = vlib.Check("C16", tier, seed, "proof")
     vlib.pure_python_parser()
@@ -136,8 +151,12 @@ def run(tier, seed):
         for name in names:
             kind = real_lookup(x, name, StringMixIn)
             if kind == "FoundClass":
-                per_class_redefined.setdefault(cn, set()).add(name)
-                continue
+                if name in ALLOWED_ALL or name in ALLOWED.get(cn, ()):
+                    per_class_redefined.setdefault(cn, set()).add(name)
+                    continue
+                # a name of dir(str) that the class has taken over without being on the documented list: it still has to
+                # behave like str's (the property excludes only what the class redefines on purpose)
+                kind = "Delegated"
             if kind == "AttrError":
                 if hasattr(str, name):
                     c.fail("str attribute %r raises AttributeError on %s" % (name, cn), {"class": cn, "text": s, "name": name})
@@ -183,6 +202,17 @@ def run(tier, seed):
             lit = _ast.literal_eval(s)
         except Exception:  # noqa: BLE001
             pass
+        # nodes of ANOTHER class (and a Wikicode) that render the same text: equal, as their texts are
+        from mwparserfromhell.nodes import Text as _Text, Template as _Tpl
+        twins = [_Text(s), mwparserfromhell.parse(s, skip_style_tags=True), _Tpl(mwparserfromhell.parse("q"))]
+        for o in twins:
+            if type(o) is type(x):
+                continue
+            for nm, f in ops:
+                c.cov["evaluations"] += 1
+                if outcome(lambda: f(x, o)) != outcome(lambda: f(s, str(o))) or outcome(lambda: f(o, x)) != outcome(lambda: f(str(o), s)):
+                    c.fail("comparison %s of a %s with a %s that renders %r differs from comparing the texts" % (nm, cn, type(o).__name__, str(o)[:40]),
+                           {"class": cn, "text": s, "other": "%s(%r)" % (type(o).__name__, str(o))})
         for o in [5, None, 3.5, b"x", [1, 2], (), 0, True, lit]:
             if isinstance(o, str):
                 continue
